@@ -578,6 +578,7 @@ func ruleSchedLoop(w *World, r *RuleResult) {
 		}
 	}
 	// early return only after a death, with more than one warrior and one survivor
+	earlyFound := false
 	for _, p := range paths {
 		if p.End != "ret" {
 			continue
@@ -618,7 +619,9 @@ func ruleSchedLoop(w *World, r *RuleResult) {
 			}
 		}
 		d.add(multi && one && died, "early-return", w.Pos(fn.Pos()), "cycle abandoned only when a death leaves exactly one survivor among several warriors", "the cycle is cut short on a path without (warrior count > 1, a death, living count == 1)")
+		earlyFound = true
 	}
+	d.add(earlyFound, "early-return/exists", w.Pos(fn.Pos()), "the cycle ends as soon as a death leaves a single survivor among several warriors", "no path ends the cycle when a death leaves a single survivor: the survivor (or later warriors) still execute in a battle that is already decided, so a round can end with nobody alive")
 	d.flush()
 }
 
